@@ -279,3 +279,42 @@ V("C20-i-cb-in-events", "C20", "C20.3", (DS, "                for i in callback:
 V("C20-j-njev-double", "C20", ["C20.2b", "C20.2"], (DS, "        if self.__jac_is_wrapped_rhs:\n            if t != self.__jac_time:", "        if self.__jac_is_wrapped_rhs:\n            self.njev += 1\n            if t != self.__jac_time:"))
 V("C20-k-fix-dir-magnitude", "C20", "C20.4", (DS, "            self.__dt = -self.__dt\n        else:", "            self.__dt = -0.5 * self.__dt\n        else:"))
 V("C20-s-cb-name", "C20", "silent", (DS, "                for i in callback:\n                    i(self)", "                for cb in callback:\n                    cb(self)"))
+
+# ---- C15 -----------------------------------------------------------------------------------------
+V("C15-a-always-true", "C15", "C15.1", (OPT, "    x = D.ar_numpy.reshape(root, xshape)\n    if var_bounds is not None:\n        x = transform_to_unbounded_x(x, *var_bounds)\n    \n    return x, (success, iterations, nfev, njev, prec)", "    x = D.ar_numpy.reshape(root, xshape)\n    if var_bounds is not None:\n        x = transform_to_unbounded_x(x, *var_bounds)\n    \n    return x, (True, iterations, nfev, njev, prec)"))
+V("C15-b-no-reshape", "C15", "C15.3", (OPT, "    x = D.ar_numpy.reshape(root, xshape)\n    if var_bounds is not None:\n        x = transform_to_unbounded_x(x, *var_bounds)\n    \n    return x, (success, iterations, nfev, njev, prec)", "    x = root\n    if var_bounds is not None:\n        x = transform_to_unbounded_x(x, *var_bounds)\n    \n    return x, (success, iterations, nfev, njev, prec)"))
+V("C15-c-ntr-iter-success", "C15", "C15.1", (OPT, "        success = success or Fn1 < 0.8 * tol\n", "        success = success or Fn1 < 0.8 * tol or iteration > 50\n"))
+V("C15-d-ntr-ignores-failure", "C15", "C15.1", (OPT, "    return x, (success and not convergence_failure, iteration, nfev, njev, Fn1)", "    return x, (success or not convergence_failure, iteration, nfev, njev, Fn1)"))
+V("C15-e-slot-swap", "C15", "C15.2", (OPT, "    return x, (success and not convergence_failure, iteration, nfev, njev, Fn1)", "    return x, (success and not convergence_failure, iteration, nfev, njev, dxn)"))
+V("C15-f-scipy-branch-reshape", "C15", "C15.3", (OPT, "        if success:\n            x = D.ar_numpy.reshape(x, xshape)\n            if var_bounds is not None:\n                x = transform_to_unbounded_x(x, *var_bounds)\n            return x, (success, init_iter, nfev, njev, D.ar_numpy.linalg.norm(F))", "        if success:\n            if var_bounds is not None:\n                x = transform_to_unbounded_x(x, *var_bounds)\n            return x, (success, init_iter, nfev, njev, D.ar_numpy.linalg.norm(F))"))
+V("C15-g-hybrj-arity", "C15", "C15.2", (OPT, "    return x, (success, dxn, iteration, D.ar_numpy.reshape(F0, fshape))", "    return x, (success, iteration, D.ar_numpy.reshape(F0, fshape))"))
+V("C15-h-nr-maxiter-success", "C15", "C15.1", (OPT, "    success = success or prec <= D.tol_epsilon(x0.dtype)\n    \n    x = D.ar_numpy.reshape(root, xshape)", "    success = success or iterations < maxiter\n    \n    x = D.ar_numpy.reshape(root, xshape)"))
+V("C15-s-flip", "C15", "silent", (OPT, "        success = success or Fn1 < 0.8 * tol\n", "        success = 0.8 * tol > Fn1 or success\n"))
+
+# ---- C18 -----------------------------------------------------------------------------------------
+V("C18-a-swap-tols", "C18", "C18.1", (DS, "atol=options.get('atol', None), rtol=options.get('rtol', None), constants=constants)", "atol=options.get('rtol', None), rtol=options.get('atol', None), constants=constants)"))
+V("C18-b-args-offset", "C18", "C18.2", (DS, "zip(fn_args_kwargs[0][2:], args)", "zip(fn_args_kwargs[0][1:], args)"))
+V("C18-c-axes", "C18", "C18.4", (DS, "axes=[*range(1, len(ode_system.y.shape)), 0]", "axes=[0, *range(1, len(ode_system.y.shape))]"))
+V("C18-d-signed-clip", "C18", "C18.5", (DS, "ode_sys.dt = D.ar_numpy.sign(ode_sys.dt) * D.ar_numpy.clip(D.ar_numpy.abs(ode_sys.dt), min=min_step, max=max_step)", "ode_sys.dt = D.ar_numpy.clip(ode_sys.dt, min=min_step, max=max_step)"))
+V("C18-e-clip-swapped", "C18", "C18.5", (DS, "D.ar_numpy.clip(D.ar_numpy.abs(ode_sys.dt), min=min_step, max=max_step)", "D.ar_numpy.clip(D.ar_numpy.abs(ode_sys.dt), min=max_step, max=min_step)"))
+V("C18-f-no-events", "C18", "C18.1", (DS, "integration_options = dict(callback=callbacks, events=events, eta=options.get(\"show_prog_bar\", False))", "integration_options = dict(callback=callbacks, events=None, eta=options.get(\"show_prog_bar\", False))"))
+V("C18-g-result-swap", "C18", "C18.3", (DS, "nfev=ode_system.nfev, njev=ode_system.njev,", "nfev=ode_system.njev, njev=ode_system.nfev,"))
+V("C18-h-stack-axis", "C18", "C18.4", (DS, "y_res = D.ar_numpy.stack(y_res, axis=-1)", "y_res = D.ar_numpy.stack(y_res, axis=0)"))
+V("C18-i-sort-asc", "C18", "C18.6", (DS, "        t_eval = __dir * D.ar_numpy.sort(__dir * D.ar_numpy.asarray(t_eval))", "        t_eval = D.ar_numpy.sort(D.ar_numpy.asarray(t_eval))"))
+V("C18-j-register-only-max", "C18", "C18.5", (DS, "    if \"max_step\" in options or \"min_step\" in options:", "    if \"max_step\" in options and \"min_step\" in options:"))
+V("C18-k-y-from-prev", "C18", "C18.4", (DS, "            y_res.append(ode_system[-1].y)", "            y_res.append(ode_system[-2].y)"))
+V("C18-l-dense-flag", "C18", "C18.1", (DS, "ode_system = OdeSystem(equ_rhs=fun, y0=y0, t=t_span, dense_output=dense_output,", "ode_system = OdeSystem(equ_rhs=fun, y0=y0, t=t_span, dense_output=False,"))
+V("C18-m-method-ignored", "C18", "C18.1", (DS, "    ode_system.method = method\n", "    ode_system.method = 'RK45'\n"))
+V("C18-s-kw-order", "C18", "silent", (DS, "atol=options.get('atol', None), rtol=options.get('rtol', None), constants=constants)", "rtol=options.get('rtol', None), atol=options.get('atol', None), constants=constants)"))
+
+# ---- C19 -----------------------------------------------------------------------------------------
+V("C19-a-guard-ge", "C19", "C19.1", (DS, "            if index > self.counter:\n                raise IndexError(", "            if index >= self.counter:\n                raise IndexError("))
+V("C19-b-guard-loose", "C19", "C19.1", (DS, "            if index > self.counter:\n                raise IndexError(", "            if index > self.counter + 1:\n                raise IndexError("))
+V("C19-c-raw-read", "C19", "C19.3", (DS, "                return StateTuple(t=self.t[index], y=self.y[index], event=None)\n        elif isinstance(index, slice):", "                return StateTuple(t=self.__t[index], y=self.__y[index], event=None)\n        elif isinstance(index, slice):"))
+V("C19-d-bisect-again", "C19", "C19.2", (DS, "nearest_idx = int(D.ar_numpy.argmin(D.ar_numpy.abs(self.t - index)))", "nearest_idx = deutil.search_bisection(self.t, index)"))
+V("C19-e-dense-negated", "C19", "C19.4", (DS, "            if self.__dense_output and self.sol is not None:\n                return StateTuple(t=index, y=self.sol(index), event=None)", "            if not self.__dense_output and self.sol is not None:\n                return StateTuple(t=index, y=self.sol(index), event=None)"))
+V("C19-f-len", "C19", "C19.6", (DS, "    def __len__(self):\n        return self.counter + 1", "    def __len__(self):\n        return self.counter"))
+V("C19-g-slice-undirected", "C19", "C19.2", (DS, "start_idx = deutil.search_bisection(__dir * self.t, __dir * index.start)", "start_idx = deutil.search_bisection(self.t, index.start)"))
+V("C19-h-nearest-raw", "C19", ["C19.3", "C19.2"], (DS, "nearest_idx = int(D.ar_numpy.argmin(D.ar_numpy.abs(self.t - index)))", "nearest_idx = int(D.ar_numpy.argmin(D.ar_numpy.abs(self.__t - index)))"))
+V("C19-i-view-short", "C19", "C19.6", (DS, "        return self.__t[:self.counter + 1]", "        return self.__t[:self.counter]"))
+V("C19-s-guard-len", "C19", "silent", (DS, "            if index > self.counter:\n                raise IndexError(", "            if index >= len(self):\n                raise IndexError("))
